@@ -13,6 +13,7 @@ def canon_facts(f):
     f = dict(f)
     f.pop("why", None)
     f.pop("enum_tables", None)
+    f.pop("addr_tables", None)
     if f.get("outcome") == "error":
         if f.get("stage") == "front":
             f["names"] = []
@@ -149,6 +150,10 @@ def correspond_gen(prop):
                         res.model_disagreements.append({"case": slim(c), "diff": diff})
             if mf is not None and af.get("outcome") == "ok" and mf.get("enum_tables"):
                 d = oracles.compare_enum_tables(af, mf)
+                if d:
+                    res.model_disagreements.append({"case": slim(c), "diff": d})
+            if mf is not None and af.get("outcome") == "ok" and mf.get("addr_tables"):
+                d = oracles.compare_addr_tables(af, mf)
                 if d:
                     res.model_disagreements.append({"case": slim(c), "diff": d})
             # property oracle on the implementation (independent of the model)
